@@ -9,12 +9,12 @@ def run(report, tier):
         plan = [(P.P1(), None, 0, None), (P.L1(), None, 0, None), (P.E0(), 2, 0, None), (P.L2(), 2, 0, None),
                 (P.P4(), 2, 0, None), (P.P9(), 1, 0, None), (P.P11(), 2, 0, None), (P.E2(), 2, 0, None),
                 (P.P3(), 1, 0, None), (P.P8(), 1, 0, None), (P.P2(), 2, 0, None), (P.P5(), 1, 0, None),
-                (P.P6(), 2, 0, None)]
+                (P.P6(), 2, 0, None), (P.P5w(), 1, 0, None), (P.Q1(), 1, 0, None)]
     else:
         plan = [(P.P1(), None, 0, None), (P.L1(), None, 0, None), (P.E0(), None, 0, None), (P.L2(), 3, 0, None),
                 (P.P4(), None, 0, None), (P.P9(), 2, 0, None), (P.P11(), None, 0, None), (P.E2(), None, 0, None),
                 (P.P3(), 2, 0, None), (P.P8(), 2, 0, None), (P.P2(), 3, 0, None), (P.P5(), 2, 0, None),
-                (P.P6(), 2, 0, None), (P.P7(), 2, 0, None)]
+                (P.P6(), 2, 0, None), (P.P7(), 2, 0, None), (P.P5w(), 2, 0, None), (P.Q1(), 2, 0, None)]
         grid = [(c, 2, 0, 60000) for c in P.grid() if c.calls[0][1] == "lazy" or c.rq is not None]
     run_pool_check(report, "C02", plan, grid=grid)
 
